@@ -273,6 +273,53 @@ func c18run(w *report.W) {
 			}
 		}
 		w.Count("sign_verify_pairs", int64(len(pairs)*len(pairs)*len(payloads)))
+		// verifier key SETS: a signature verifies against every set that contains the signer's public half - whatever other
+		// keys (other ids, other algorithms, in any order) the set holds - and against no set that lacks it
+		type idp struct {
+			id        string
+			priv, pub jwk.Set
+		}
+		var idps []idp
+		for i, alg := range []jwa.SignatureAlgorithm{jwa.EdDSA, jwa.ES512, jwa.PS512, jwa.ES512} {
+			id := fmt.Sprintf("key-%d-%s", i, alg)
+			priv, pub, err := jwkutil.NewKeyPair(id, alg)
+			if err != nil {
+				continue
+			}
+			idps = append(idps, idp{id, priv, pub})
+		}
+		for mask := 1; mask < 1<<len(idps); mask++ {
+			for _, rev := range []bool{false, true} {
+				set := jwk.NewSet()
+				var members []string
+				for i := range idps {
+					j := i
+					if rev {
+						j = len(idps) - 1 - i
+					}
+					if mask&(1<<j) != 0 {
+						k, _ := idps[j].pub.Key(0)
+						set.AddKey(k)
+						members = append(members, idps[j].id)
+					}
+				}
+				for si, sp := range idps {
+					skey, _ := sp.priv.Key(0)
+					sig, err := signature.Sign(ctx, skey, c18fielder{payloads[0]})
+					if err != nil {
+						continue
+					}
+					w.P.Evaluations++
+					w.P.Nontrivial++
+					verr := signature.Verify(ctx, sig, set, c18fielder{payloads[0]})
+					want := mask&(1<<si) != 0
+					if (verr == nil) != want {
+						w.Violate(report.Violation{Kind: "verify-against-key-set", Case: fmt.Sprintf("signed by %s, verified against the set %v", sp.id, members),
+							Detail: fmt.Sprintf("verify err=%v, want success=%v", verr, want), Size: 2 + len(members)})
+					}
+				}
+			}
+		}
 	}
 
 	// Part 4: key-set files
@@ -521,7 +568,7 @@ func init() {
 		ID: "C18",
 		Rule: "finite tables fully enumerated: 12 key forms (RSA-2048, EC P-256/384/521, Ed25519 private+public, two oct sizes) x every algorithm name the JOSE " +
 			"library registers (signature, key-encryption, content-encryption) plus none/unknown/empty/case and padding variants/missing, set programmatically and through " +
-			"JSON parsing (each key is then handed to signature.Sign once: the key and the verdict must be unchanged); generated pairs (2 per approved algorithm) validate and the 6x6 sign/verify matrix x 3 payloads accepts exactly the diagonal; key-set files: " +
+			"JSON parsing (each key is then handed to signature.Sign once: the key and the verdict must be unchanged); generated pairs (2 per approved algorithm) validate and the 6x6 sign/verify matrix x 3 payloads accepts exactly the diagonal; every non-empty subset (both orders) of four public keys with distinct ids (EdDSA, ES512 x2, PS512) as the verifier set accepts exactly the signatures of its members; key-set files: " +
 			"every list of <=3 keys over ids {a,b,none} x valid/invalid algorithm (and, for lists of <=2, a `use` member sig / enc, which the rule ignores) x requested id in {\"\",a,b,c} x the history on that path (no earlier load, an earlier load with each requested id, an earlier load while the path held another key set); key sets of 16..2048 keys (up to ~400 kB): first / middle / last / absent id. Non-trivial = rows the rule accepts, " +
 			"sign/verify pairs and key-set cases.",
 		Assumptions: []string{
